@@ -72,6 +72,11 @@ pub enum Op {
     DeBytes { w: usize, fmt: String, hs: Vec<usize>, backend: String, mutseed: Option<u64> },
 }
 
+/// menu entries that are 1-tuples `(T,)` (the `*_one` methods take the component itself)
+fn single_tuple(k: usize) -> bool {
+    matches!(k, 1..=9 | 26 | 28)
+}
+
 fn show_reads(reads: &[(u8, bool)]) -> String {
     let v: Vec<String> = reads
         .iter()
@@ -735,8 +740,14 @@ impl Ctx {
             }
             Op::Insert { w, h, k, b } => {
                 let e = self.resolve(h);
+                let one = self.cur_op % 2 == 1;
                 let world = self.world(*w);
                 let r = match k {
+                    // every other single-component insert goes through `insert_one`
+                    Some(k) if one && single_tuple(*k) => {
+                        check_menu(*k, b);
+                        with_type!(b[0].0, T, world.insert_one(e, <T as Comp>::new(b[0].1)))
+                    }
                     Some(k) => {
                         check_menu(*k, b);
                         with_bundle!(*k, T, world.insert(e, <T as StaticBundle>::make(&serials_of(b))))
@@ -753,8 +764,22 @@ impl Ctx {
             }
             Op::Remove { w, h, k } => {
                 let e = self.resolve(h);
+                let one = self.cur_op % 2 == 1;
                 let world = self.world(*w);
-                let res = with_bundle!(*k, T, {
+                let res = if one && single_tuple(*k) {
+                    with_type!(bundle_types(*k)[0], T, {
+                        match world.remove_one::<T>(e) {
+                            Ok(v) => {
+                                let s = format!("vals={}", show_comps(&[(<T as Comp>::IDX, v.serial())]));
+                                suppressed(|| drop(v));
+                                s
+                            }
+                            Err(hecs::ComponentError::NoSuchEntity) => "nosuch".to_string(),
+                            Err(hecs::ComponentError::MissingComponent(_)) => "missing".to_string(),
+                        }
+                    })
+                } else {
+                    with_bundle!(*k, T, {
                     match world.remove::<T>(e) {
                         Ok(b) => {
                             let s = format!("vals={}", show_comps(&StaticBundle::serials(&b)));
@@ -764,13 +789,39 @@ impl Ctx {
                         Err(hecs::ComponentError::NoSuchEntity) => "nosuch".to_string(),
                         Err(hecs::ComponentError::MissingComponent(_)) => "missing".to_string(),
                     }
-                });
+                    })
+                };
                 (format!("remove W{} h={} k={} ts={}", w, show_entity(e), k, show_nats(&bundle_types(*k))), res)
             }
             Op::Exchange { w, h, ks, k, b } => {
                 let e = self.resolve(h);
+                let one = self.cur_op % 2 == 1 && (1..=4).contains(ks) && k.map_or(false, single_tuple);
                 let world = self.world(*w);
-                let res = with_small_bundle!(*ks, RemB, {
+                let res = if one {
+                    check_menu(k.unwrap(), b);
+                    macro_rules! ex_one {
+                        ($S:ty) => {
+                            with_type!(b[0].0, T, {
+                                match world.exchange_one::<$S, T>(e, <T as Comp>::new(b[0].1)) {
+                                    Ok(got) => {
+                                        let s = format!("vals={}", show_comps(&[(<$S as Comp>::IDX, got.serial())]));
+                                        suppressed(|| drop(got));
+                                        s
+                                    }
+                                    Err(hecs::ComponentError::NoSuchEntity) => "nosuch".to_string(),
+                                    Err(hecs::ComponentError::MissingComponent(_)) => "missing".to_string(),
+                                }
+                            })
+                        };
+                    }
+                    match ks {
+                        1 => ex_one!(A),
+                        2 => ex_one!(B),
+                        3 => ex_one!(E),
+                        _ => ex_one!(Z),
+                    }
+                } else {
+                    with_small_bundle!(*ks, RemB, {
                     let r = match k {
                         Some(k) => {
                             check_menu(*k, b);
@@ -790,7 +841,8 @@ impl Ctx {
                         Err(hecs::ComponentError::NoSuchEntity) => "nosuch".to_string(),
                         Err(hecs::ComponentError::MissingComponent(_)) => "missing".to_string(),
                     }
-                });
+                    })
+                };
                 (
                     format!(
                         "exchange W{} h={} ks={} ts={} k={} b={}",
@@ -1073,6 +1125,8 @@ pub struct Gen {
     pub rng: Rng,
     pub serial: u64,
     pub profile: Profile,
+    /// ops of a scenario in progress (multi-step sequences random choice reaches too rarely)
+    plan: std::collections::VecDeque<Op>,
 }
 
 #[derive(Clone, Copy, PartialEq, Debug)]
@@ -1100,7 +1154,7 @@ pub enum Profile {
 
 impl Gen {
     pub fn new(seed: u64, profile: Profile) -> Self {
-        Gen { rng: Rng::new(seed), serial: 1, profile }
+        Gen { rng: Rng::new(seed), serial: 1, profile, plan: Default::default() }
     }
 
     fn fresh(&mut self) -> u64 {
@@ -1224,6 +1278,48 @@ impl Gen {
     fn batch_rows(&mut self, decl: &[usize], n: usize) -> Vec<Bundle> {
         let ts = canon_types(decl);
         (0..n).map(|_| self.bundle_for_types(&ts)).collect()
+    }
+
+    /// scenario: a clone-builder is built, converted back, extended, rebuilt and spawned (twice), next to an
+    /// entity of the same component set spawned from a tuple-shaped dynamic bundle
+    fn plan_round_trip(&mut self, ctx: &Ctx, w: usize) {
+        use crate::containers::COp;
+        let free: Vec<usize> = (0..6).filter(|i| !ctx.containers.builders.contains_key(i)).collect();
+        if free.len() < 2 {
+            return;
+        }
+        let (b, c) = (free[0], free[1]);
+        self.plan.push_back(Op::Cont(COp::BNew { b, clone: true }));
+        let mut ts: Vec<usize> = Vec::new();
+        for _ in 0..1 + self.rng.below(3) {
+            let t = self.rng.below(10);
+            let v = if t >= 7 { 0 } else { self.fresh() };
+            if !ts.contains(&t) {
+                ts.push(t);
+            }
+            self.plan.push_back(Op::Cont(COp::BAdd { b, t, v }));
+        }
+        self.plan.push_back(Op::Cont(COp::BBuild { b, into: c }));
+        if self.rng.chance(50) {
+            self.plan.push_back(Op::Cont(COp::CSpawn { b: c, w }));
+        }
+        self.plan.push_back(Op::Cont(COp::CBack { b: c, into: b }));
+        if self.rng.chance(50) {
+            let t = self.rng.below(10);
+            let v = if t >= 7 { 0 } else { self.fresh() };
+            if !ts.contains(&t) {
+                ts.push(t);
+            }
+            self.plan.push_back(Op::Cont(COp::BAdd { b, t, v }));
+        }
+        self.plan.push_back(Op::Cont(COp::BBuild { b, into: c }));
+        if self.rng.chance(60) {
+            let bundle = self.bundle_for_types(&ts);
+            self.plan.push_back(Op::Spawn { w, k: None, b: bundle });
+        }
+        self.plan.push_back(Op::Cont(COp::CSpawn { b: c, w }));
+        self.plan.push_back(Op::Cont(COp::CSpawn { b: c, w }));
+        self.plan.push_back(Op::Obs { w });
     }
 
     fn cont_op(&mut self, ctx: &Ctx, w: usize) -> Op {
@@ -1445,7 +1541,16 @@ impl Gen {
     }
 
     pub fn next_op(&mut self, ctx: &Ctx, nworlds: usize) -> Op {
+        if let Some(op) = self.plan.pop_front() {
+            return op;
+        }
         let w = if nworlds > 1 && self.rng.chance(25) { 1 } else { 0 };
+        if self.profile == Profile::Containers && self.rng.chance(4) {
+            self.plan_round_trip(ctx, w);
+            if let Some(op) = self.plan.pop_front() {
+                return op;
+            }
+        }
         if matches!(self.profile, Profile::Mixed | Profile::Malformed) && self.rng.chance(1) {
             // out-of-contract probe: a bundle type that names a component type twice
             let k = NBUNDLES + self.rng.below(NBUNDLES_ALL - NBUNDLES);
@@ -1652,7 +1757,11 @@ impl Gen {
                 let q = self.rng.below(crate::query_engine::NQUERIES);
                 let path = crate::query_engine::PATHS[self.rng.below(crate::query_engine::PATHS.len())].to_string();
                 let (h, _) = self.pick_handle(ctx, w);
-                let n = *self.rng.pick(&[1usize, 2, 3, 7, 64]).unwrap();
+                let mut n = *self.rng.pick(&[1usize, 2, 3, 7, 64]).unwrap();
+                if path.ends_with("batched") && self.rng.chance(25) {
+                    // "any batch size >= 1": the far end of u32 too
+                    n = *self.rng.pick(&[u32::MAX as usize, u32::MAX as usize - 1, u32::MAX as usize - 2, 1usize << 31, (1usize << 31) + 1]).unwrap();
+                }
                 Op::Query { w, q, path, h, n }
             }
         }
